@@ -152,6 +152,15 @@ CHECKS = {
         "note": "Compiler and compiled probe are the oracle; the model supplies domain, alias law and the design-level proof. Containers are followed through by-value struct nesting only.",
         "technique": "TLA+ heap model checked by TLC + TLA+-enumerated type graphs, TLC trace judge over compiler / probe verdicts",
     },
+    "C18": {
+        "level": "exploration",
+        "text": "PartialStruct.tla enumerates origin structs (ordered selections of 9 field kinds x tag-class rotations x omit sets x replace modes + three error shapes) and defines "
+                "Retained(origin, omit, replace); the real partialstruct generator runs through gengo, the module is compiled, and a reflective probe reports field order, reflect.Type and tag "
+                "identity with the origin or the replacement, DeepCopyAs on nil, equality of retained and zero-ness of omitted fields; PartialStructTrace.tla judges them against Retained and "
+                "requires an error (and no file) for the error shapes.",
+        "note": "Compiler and compiled probe are the oracle; replacement types are generated partial structs.",
+        "technique": "TLA+-enumerated domain with a model-computed oracle, TLC trace judge over compiler / probe verdicts",
+    },
     "C19": {
         "level": "model_checking",
         "text": "CamelCase.tla models Split as a rune-class scanner with an explicit PANIC outcome; TLC proves it total, lossless and free of empty "
